@@ -67,7 +67,11 @@ func newConn(ctx context.Context, tr net.Conn, keys []ech.Key) (c *ech.Conn, err
 	err = guard(func() error {
 		var e error
 		var opts []ech.Option
-		if keys != nil {
+		if w, ok := tr.(*wire.Conn); ok && len(keys) >= 2 && w.Remaining()%2 == 1 {
+			// WithKeys appends: a key list may arrive in several options (decided by the input)
+			k := 1 + (w.Remaining()/2)%(len(keys)-1)
+			opts = append(opts, ech.WithKeys(keys[:k:k]), ech.WithKeys(keys[k:]))
+		} else if keys != nil {
 			opts = append(opts, ech.WithKeys(keys))
 		}
 		if withDebug {
